@@ -106,12 +106,14 @@ def r2_build(ctx):
     tr = ctx.tracer(follow_callers=False, follow_fields=False)
     b = F.one(PB + "build$")
     R.fn(b)
-    ie = b.calls_to(r"Vec::<.*>::is_empty$")
-    R.check(len(ie) == 1, "C20.R2", "build:empty-test", "build tests for an empty buffer", "build has %d is_empty tests" % len(ie), "%s:%d" % (b.file, b.lo))
-    for c in ie:
+    ie = b.calls_to(r"Vec::<.*>::is_empty$|slice::<impl \[T\]>::is_empty$")
+    # `match self.bytes.last_mut() { None => return None, .. }` tests for emptiness just as well
+    alt = [] if ie else b.calls_to(r"slice::<impl \[T\]>::(last|last_mut|first|first_mut)$")
+    R.check(len(ie) + len(alt) == 1, "C20.R2", "build:empty-test", "build tests for an empty buffer", "build has %d is_empty tests" % len(ie), "%s:%d" % (b.file, b.lo))
+    for c in ie + alt:
         t_true = None
         for sb, arms, other in flow.switch_on(b, c.dest["l"]):
-            t_true = other if "0" in arms else arms.get("1")
+            t_true = arms.get("0") if c in alt else (other if "0" in arms else arms.get("1"))
         none_ok = False
         if t_true is not None:
             for bi in {x for x in (b.reach_from(t_true) | {t_true}) if b.dominates(t_true, x)}:
